@@ -138,7 +138,7 @@ class C01(Prop):
     title = 'PEG semantics of sequence / ordered choice / option / lookahead'
     claimed = True
     level_text = ('refinement theorem machine -> PEG reading for every grammar/input/fuel (Lean), '
-                  'and acceptance/output of the real crate compared with model and PEG reading on enumerated and random grammars')
+                  'and acceptance/output of the real crate compared with model and PEG reading on enumerated and random grammars; the same refinement and PEG laws for grammars with extensions (Pratt tables and nested-input parsers containing each other, machine runE / reading pegE)')
     rule = ('grammars: exhaustive enumeration by node count over the C01 constructor set (deduplicated), plus seeded '
             'random deeper ones; inputs: all strings up to the bound over {a,b,e-acute,clef}; kinds &str and &[char]; '
             'non-trivial = grammar contains a backtracking site and the input is non-empty; every (grammar,input) pair is distinct')
@@ -472,7 +472,7 @@ class C04(Prop):
                   'value-building formulations proved equal; check() vs parse() of the real crate compared on every stream')
     rule = ('every grammar of the validation streams (C01 class, repetition/consumers, emitters, recovery, decorations, context, '
             'all four error kinds) is run twice, through parse and through check; non-trivial = backtracking grammar and '
-            'non-empty input; pairs are distinct (grammar, input, mode) triples')
+            'non-empty input; pairs are distinct (grammar, input, mode) triples; regex(p) run for its output against regex(p) under to_slice / ignored (check mode)')
     bins = ALL.bins + ['h_text']
 
     def custom_run(self, lines, tier, seed, jobs):
@@ -764,7 +764,7 @@ class C02(SpecProp):
             'iterators; configure/try_configure from context; nullable items (debug-assertion panics); all inputs over {a , b}')
     level_text = ('machine loops refine the functional iterator protocol of the spec (Lean, all grammars/inputs); the protocol is '
                   'characterised by chain predicates (greedy, possessive, bounds, separators); items, counts and remainders of the '
-                  'real crate compared with model and spec')
+                  'real crate compared with model and spec; repetition / separated-list characterisations also over items read by the extension reading (pegE)')
 
 
 class C03(SpecProp):
@@ -774,10 +774,10 @@ class C03(SpecProp):
     quick_cap = 9000
     why = 'result contract violated'
     rule = ('C01, C02 and recovery streams; inputs enumerated exhaustively up to the bound, so every one-token extension of an '
-            'accepted input below the bound is itself a case; observation = (has_output, has_errors, into_result is Ok)')
+            'accepted input below the bound is itself a case; observation = (has_output, has_errors, into_result is Ok); shared memoized parsers that succeed with a non-fatal error, revisited in check mode / under ignored / to_slice; IoInput readers positioned after a header')
     level_text = ('theorems on parse/check of the model: error-free output iff the grammar followed by end-of-input matches in the '
                   'PEG reading (every token consumed), no-output implies an error, into_result consistency; the real ParseResult '
-                  'accessors compared on every case')
+                  'accessors compared on every case; the same contract for grammars with extensions (parseTopE)')
 
     bins = ['h_str_rich', 'h_slice_rich', 'h_stream_rich', 'h_mstream_rich', 'h_kinds_rich']
 
@@ -882,10 +882,10 @@ class C05(SpecProp):
     why = 'reported non-fatal errors / state differ from those of the surviving path'
     rule = ('C01-class grammars with validate emitters and recover_with inserted at every node position (inside choices, '
             'lookahead, and_is, rewind, optional), custom parsers that fail after consuming; observation = output + ordered list '
-            'of secondary errors + final inspector state')
+            'of secondary errors + final inspector state; emissions kept by rewind / and_is ahead of later abandoned emissions, two emitters per grammar')
     level_text = ('refinement theorem: on success the secondary errors are exactly (in order) the emissions of the surviving path of '
                   'the PEG reading, the inspector equals the one fed the consumed prefix; on failure the caller-visible list is only '
-                  'extended; error lists of the real crate compared with spec emissions')
+                  'extended; error lists of the real crate compared with spec emissions; atomicity and reported errors also for grammars with extensions (through operator rewinds and nested sub-contexts)')
 
 
 class C08(SpecProp):
@@ -898,9 +898,9 @@ class C08(SpecProp):
     bins = ['h_str_rich', 'h_slice_rich', 'h_str_simple', 'h_slice_simple', 'h_str_cheap', 'h_slice_cheap', 'h_str_empty', 'h_slice_empty']
     why = 'recovery result differs from the recovery reading'
     rule = ('C01-class grammars with recover_with(via_parser | skip_until | skip_then_retry_until) inserted at every node position; '
-            'observation = output + error list (recovered errors matched by position in the spec, by full content in the model)')
+            'observation = output + error list (recovered errors matched by position in the spec, by full content in the model); recovery inside the fallback of via_parser under all four error types')
     level_text = ('recover_with/strategies refine the recovery reading of the spec (transparent on success, one extra error on '
-                  'recovery, failure restores position); full error content compared between the real crate and the model')
+                  'recovery, failure restores position); full error content compared between the real crate and the model; the recovery laws and never-silent also around and inside extensions (Pratt tables, nested parses)')
 
     def proj_impl(self, m):
         if m['kind'] != 'R':
@@ -916,7 +916,7 @@ class C15(SpecProp):
     rule = ('length-prefixed, delimiter-echo and nested-provider families plus C01 grammars with context readers and providers '
             '(with_ctx, ignore_with_ctx, then_with_ctx, map_ctx) inserted at node positions; outputs embed the observed context')
     level_text = ('refinement theorem: the machine (which swaps a context reference) delivers the lexically nearest provider of the '
-                  'PEG reading; configure/try_configure equal the statically configured parser; outputs of the real crate compared')
+                  'PEG reading; configure/try_configure equal the statically configured parser; outputs of the real crate compared; the context of the caller is handed back also by Pratt parsers and nested parses (runE)')
 
     def cases(self, tier, seed):
         lines = super().cases(tier, seed)
@@ -984,9 +984,9 @@ class C18(SpecProp):
     with_insp = True
     why = 'observed inspector state differs from "fed exactly the tokens before the position"'
     rule = ('C01/C02/recovery grammars with state observations (map_with reading the inspector) inserted at node positions and '
-            'with_state scopes; observation = every observed (count, hash) in the output and the final state of parse_with_state')
+            'with_state scopes; observation = every observed (count, hash) in the output and the final state of parse_with_state; a shared memoized parser in check mode, abandoned and revisited, followed by an inspector observation')
     level_text = ('refinement theorem threads the inspector: every observation equals the inspector fed the tokens consumed on the '
-                  'surviving path; with_state starts fresh and leaves the outer inspector untouched; real inspector compared')
+                  'surviving path; with_state starts fresh and leaves the outer inspector untouched; real inspector compared; machine inspector = the inspector of the reading also in grammars with extensions, the inspector threaded through nested parses')
     bins = ['h_str_rich', 'h_slice_rich', 'h_text']
 
     def custom_run(self, lines, tier, seed, jobs):
@@ -1230,10 +1230,10 @@ class C17(Prop):
     name = 'C17'; module = 'C17'; claimed = True
     title = 'labels and map_err change how a failure is described, never whether or where'
     rule = ('C01-class grammars with labelled / labelled.as_context / map_err inserted at one or two node positions, each compared '
-            'with the undecorated grammar on all inputs; observation = acceptance, output, number of errors and all error spans')
+            'with the undecorated grammar on all inputs; observation = acceptance, output, number of errors and all error spans; emitters that leave no pending error under an as_context label (every user error must carry the context)')
     level_text = ('simulation theorem decorated ~ undecorated (equal up to error descriptions) for every grammar; labels/contexts of the '
                   'real crate compared with the model; acceptance, outputs, error counts and spans of decorated vs plain compared on the '
-                  'real crate')
+                  'real crate; for grammars with extensions: strong erasure theorem under the same proviso (prattGo_sim, nestedStep_simS) and the every-grammar theorem')
 
     def cases(self, tier, seed):
         rng = random.Random(seed)
@@ -1409,7 +1409,7 @@ class C20(Prop):
     rule = ('union of all streams (C01, repetition incl. nullable items, emitters, recovery, decorations, context, state, four error '
             'kinds) on exhaustive small inputs, plus malformed inputs: random strings over the full Unicode range incl. combining marks, '
             'surrogate-adjacent and 4-byte characters, long inputs; every case under catch_unwind and a wall-clock watchdog; '
-            'observation = returned / panic(site) / hang')
+            'observation = returned / panic(site) / hang; every text parser over &str and &Graphemes inputs of context-dependent clusters (no panic); define-twice probe')
     level_text = ('theorems: a failing run always leaves a pending error (the "can\'t fail" unwraps never fire), well-formed grammars never '
                   'panic, fuel bound for non-recursive well-formed grammars (Lean); every case of every stream plus malformed inputs run '
                   'against the real crate under catch_unwind + watchdog and compared with the model')
@@ -1571,7 +1571,7 @@ class C11(Prop):
     rule = ('C01/C02-class grammars with memoized() inserted at one to three node positions (nested and adjacent placements, distinct '
             'parsers), memoized parsers under recover_with / map_err / labelled, shared through recursive definitions; each compared '
             'with the unmemoized grammar on all inputs; left-recursive families on all inputs up to the bound; the address-collision '
-            'shapes (memoized().memoized(), adjacent zero-sized memoized parsers) as known findings')
+            'shapes (memoized().memoized(), adjacent zero-sized memoized parsers) as known findings; a shared memoized parser failing first as a non-first alternative under labelled / map_err / not, revisited from outside')
     level_text = ('memo table model with parser ids; correspondence of full results (incl. errors) between the real crate and the model '
                   'with memoization on; memoized vs plain compared on the real crate; left-recursive family under watchdog')
 
@@ -1867,7 +1867,7 @@ class C12(Prop):
     title = 'recursive parsers equal their unrolling and nest to any depth'
     rule = ('guarded recursive grammar families (single and mutually recursive definitions; recursion under delimiters, repetition, '
             'lookahead, option, recovery), built with Recursive::declare/define and with recursive(); every input up to the bound over '
-            'the family alphabet (all nestings); each compared with the grammar unrolled deeper than any input can reach (todo below)')
+            'the family alphabet (all nestings); each compared with the grammar unrolled deeper than any input can reach (todo below); define-twice probe (the refused second definition leaves the first in place for every handle)')
     level_text = ('theorem: a recursive run equals the run of its finite unrolling (Lean); the real crate built with declare/define and '
                   'with recursive() compared with its unrolling and with the model on all nestings up to the bound; define-twice and '
                   'deep-nesting probes in the thorough tier')
@@ -1945,7 +1945,7 @@ class C13(Prop):
             'histories: every sequence of length <= 3 over the first three pool inputs plus seeded random histories of length 6, each '
             'history through one of nine wrappers over the SAME parser object (value, clone, &, Box, Rc, Arc, boxed().boxed(), Either '
             'left/right, Cache); every step compared with the result of a freshly built parser; 2-8 threads over Arc<dyn Parser+Send+Sync> '
-            'static parsers compared with sequential results; non-trivial = step whose input differs from the previous one')
+            'static parsers compared with sequential results; non-trivial = step whose input differs from the previous one; one regex() value over windows of one buffer (every prefix, growing and shrinking) against the regex oracle')
     level_text = ('theorem (model): parse creates and discards all per-parse state, so any history gives pointwise the fresh result through '
                   'any wrapper (wrappers are the identity in the model); the content is the differential run on the real crate: histories '
                   'through nine wrappers and threads, with memo tables and recursive cells in the grammars')
@@ -2317,7 +2317,7 @@ class C14(Prop):
     rule = ('int/digits with radix 2,8,10,16,36; ascii and unicode ident; keywords; whitespace, inline_whitespace, newline; padded; each on '
             'all strings up to the bound over the 12-character alphabet {0 1 7 a Z _ space CR LF e-acute - ,}, every single ASCII character '
             '(and CR/LF pairs), and seeded random strings over Unicode white space / line terminators / XID samples; &str and &[u8]; '
-            'observation = (matched slice, end position); non-trivial = non-empty input')
+            'observation = (matched slice, end position); non-trivial = non-empty input; regex under to_slice / ignored; the grapheme instance on context-dependent clusters (flags, ZWJ sequences, Indic conjuncts, Hangul jamo); a panic is a failure on every instance')
     level_text = ('theorems: each text parser (transcribed as a derived parser over the Char class record) accepts exactly its documented '
                   'language and returns the matched slice; char and u8 instances agree on ASCII; the real parsers compared with the model, '
                   'with an independent oracle of the documented languages, and &str against &[u8]')
@@ -2477,7 +2477,7 @@ class C09(Prop):
             'levels (the same symbol allowed as prefix and infix, equal powers with different associativities), atoms {x y}; all token '
             'strings up to the bound over the 6 symbols; every table built as a Vec of boxed operators and as a tuple; parse and check; '
             'observation = the fully parenthesised tree (with the span given to each fold callback) and errors; non-trivial = input with '
-            'at least one operator symbol')
+            'at least one operator symbol; thorough: 600 tables, the first 60 on all strings up to length 6')
     level_text = ('refinement theorem prattGo -> textbook binding-power reading for every table/input (also recursive tables: the expression '
                   'inside its own atom / operator parsers), shape (power-respecting), maximality '
                   '(missing operand left unconsumed) and token-order theorems (Lean); trees of the real crate compared with the reading and '
@@ -2696,7 +2696,7 @@ class C19(Prop):
             'destructor calls at return, values in the result compared with the ledger model; (2) caller-supplied tracked tokens through '
             '&[T] and Stream with a backtracking grammar; (3) C01/C02-class grammars extended with group((..)), group([..;N]), '
             'collect_exactly, folds and recovery, a drop-tracked value created by a mapper at one to three node positions, parse and '
-            'check: after the result is dropped no tracked value is alive and none was dropped twice; non-trivial = a tracked value was created')
+            'check: after the result is dropped no tracked value is alive and none was dropped twice; non-trivial = a tracked value was created; the same array families with a 328-byte tracked item (arrays below and above 1 KiB)')
     level_text = ('theorems (ledger model of the MaybeUninit code, every N and every stopping point): each created value is dropped exactly '
                   'once or moved into the result, never both, no uninitialised slot is read; instrumented runs of the real crate compared '
                   'with the ledger and checked for leaks / double drops on generated grammars; all other paths rest on safe Rust ownership')
